@@ -2,8 +2,10 @@ import AiocoapModel.Blockwise.BlockOptC
 /-!
 Model of the block-wise client `aiocoap.protocol.BlockwiseRequest` (protocol.py):
 
-* the Block1 loop of `_run` (protocol.py:896-1048 of the fixed tree): fragmentation threshold, `_extract_block`,
-  the cursor update after an acknowledgement incl. the server's size reduction, the checks
+* the Block1 loop of `_run` (protocol.py:914-1055 of the fixed tree): fragmentation threshold, `_extract_block`,
+  the cursor update after an acknowledgement (one block, or the KiB of a BERT block) incl. the
+  server's size reduction (a fix: the step from BERT to exponent 6 keeps the cursor, both count
+  KiB), the checks
   (incl. "2.31 Continue without Block1 option" and "Successful response without Block1 option
   before the end of the body", protocol.py:959-982);
 * `_complete_by_requesting_block2` (protocol.py:1140-1220) with
@@ -21,11 +23,14 @@ responses (what the driver runs: the harness records the responses its reference
 to the real `BlockwiseRequest`), `RefServer.interact` closes the loop with the reference
 server (what the theorems about conforming servers talk about).
 
-Out of the model: BERT (szx 7), the Observe option (protocol.py:1016-1031 cancels the lower
+* the deprecated way of choosing the Block1 size, `app_request.opt.block1 = (0, False, szx)`
+  (`Cfg.hint1`; protocol.py:921-937): `size_exp` starts at the hint instead of the remote's
+  maximum and every request goes through `_extract_block` -- also one that fits into one message,
+  also an empty one.
+
+Out of the model: the Observe option (protocol.py:1016-1031 cancels the lower
 observation when an intermediate acknowledgement carries Observe and goes on: no influence on the
-requests or the result, which is what the harness checks on requests with Observe:0), the
-deprecated way of passing a size hint in `app_request.opt.block1` (protocol.py:903-917; the driver
-answers `out-of-model`), an application request that asks for a particular block itself (Block2
+requests or the result, which is what the harness checks on requests with Observe:0), an application request that asks for a particular block itself (Block2
 option with a block number other than 0), task / weak reference lifetime,
 and loss or duplication of individual exchanges (the message layer's job; here every request gets
 at most one response).
@@ -73,14 +78,21 @@ inductive Outcome
 deriving Repr, DecidableEq
 
 /-- `app_request.payload`, `app_request.remote.maximum_block_size_exp`,
-`app_request.remote.maximum_payload_size`, and the size exponent of an application-preset
-`app_request.opt.block2 = (0, False, hint2)` (`none`: the request carries no Block2 option) -/
+`app_request.remote.maximum_payload_size`, the size exponent of an application-preset
+`app_request.opt.block2 = (0, False, hint2)` (`none`: the request carries no Block2 option), and
+the size exponent of an application-preset `app_request.opt.block1 = (0, False, hint1)` (the
+deprecated Block1 size hint; `none`: no Block1 option) -/
 structure Cfg where
   payload : Bytes
   szx0 : Nat
   maxPayload : Nat
   hint2 : Option Nat := none
+  hint1 : Option Nat := none
 deriving Repr, DecidableEq
+
+/-- protocol.py:919-937: `size_exp = app_request.remote.maximum_block_size_exp`, replaced by the
+exponent of an application-preset Block1 option -/
+def startSzx (cfg : Cfg) : Nat := cfg.hint1.getD cfg.szx0
 
 /-- `app_request.opt.block2`: every request of the Block1 phase is `app_request` itself or a copy
 made by `_extract_block` (message.py:441 `self.copy(payload=…, block1=…)`), so it carries it -/
@@ -118,11 +130,16 @@ def codeContinue : Nat := 95
 def threshold (cfg : Cfg) (szx : Nat) : Nat :=
   if szx ≥ 6 then cfg.maxPayload else 2 ^ (szx + 4)
 
-/-- protocol.py:920-930: the request of the current round of the Block1 loop; `none` is the
+/-- protocol.py:950-953: `app_request.opt.block1 is not None or len(app_request.payload) >
+fragmentation_threshold` -/
+def fragmented (cfg : Cfg) (szx : Nat) : Bool :=
+  cfg.hint1.isSome || decide (cfg.payload.length > threshold cfg szx)
+
+/-- protocol.py:943-961: the request of the current round of the Block1 loop; `none` is the
 `BadRequest` of `_extract_block`. Size1 is set on block 0 only. -/
 def nextRequest (cfg : Cfg) (st : B1State) : Option Req :=
-  if cfg.payload.length > threshold cfg st.szx then
-    match extractBlock cfg.payload st.cursor st.szx with
+  if fragmented cfg st.szx then
+    match extractBlock cfg.payload st.cursor st.szx cfg.maxPayload with
     | none => none
     | some (b, bytes) =>
       some { block1 := some b, block2 := hintOpt cfg,
@@ -141,6 +158,17 @@ arguments: the server's exponent, then `size_exp`, `block_cursor`; result `(size
 def reduce (target : Nat) : Nat → Nat → Nat × Nat
   | 0, cursor => (0, cursor)
   | szx + 1, cursor => if target < szx + 1 then reduce target szx (cursor * 2) else (szx + 1, cursor)
+
+/-- protocol.py:1024-1027: `if size_exp == 7: block_cursor += len(current_block1.payload) // 1024`
+`else: block_cursor += 1` -/
+def advance (st : B1State) (cur : Req) : Nat :=
+  if st.szx = 7 then st.cursor + cur.payload.length / 1024 else st.cursor + 1
+
+/-- protocol.py:1029-1036, the size reduction with the fix: BERT blocks are counted in the same
+1024-byte units as blocks of exponent 6, so `if size_exp == 7 and block1.size_exponent < 7:
+size_exp = 6` precedes the doubling loop. -/
+def reduceB (target szx cursor : Nat) : Nat × Nat :=
+  if szx = 7 ∧ target < 7 then reduce target 6 cursor else reduce target szx cursor
 
 /-- `Message._generate_next_block2_request` (message.py:499-528); `none` is its assertion. The
 request repeats the template (last Block1-phase request) with an empty payload, no Block1 and
@@ -173,7 +201,7 @@ def bodyOf (r : Resp) : Body := { code := r.code, etag := r.etag, payload := r.p
 Block2 option is the result; otherwise the first block must start at offset 0 (after the fix:
 whatever its more flag) and (after the fix) must not be larger than the block size the request
 `template` asked for, if it asked for one; without the more flag it is the result; with it, it
-must be number 0 and (after the fix) of valid size. -/
+must be number 0 and (after the fixes) of valid size and not empty. -/
 def completeBlock2 (cfg : Cfg) (template : Req) (initial : Resp) : Phase :=
   match initial.block2 with
   | none => .done (.ok (bodyOf initial))
@@ -185,7 +213,7 @@ def completeBlock2 (cfg : Cfg) (template : Req) (initial : Resp) : Phase :=
     else if szxGrows template b2 then .done (.error .unexpectedBlock2)
     else if !b2.more then .done (.ok (bodyOf initial))
     else if b2.num ≠ 0 then .done (.error .unexpectedBlock2)
-    else if !b2.validFor initial.payload.length then .done (.error .unexpectedBlock2)
+    else if !b2.okFor initial.payload.length then .done (.error .unexpectedBlock2)
     else enterB2 cfg template
       { code := initial.code, etag := initial.etag, payload := initial.payload, block2 := b2 }
 
@@ -213,7 +241,7 @@ def step (cfg : Cfg) : Phase → Resp → Phase
       let sent := sentBlock1 st cur
       if a.num ≠ sent.num then .done (.error .unexpectedBlock1)   -- "Block number mismatch"
       else
-        let sc := reduce a.szx st.szx (st.cursor + 1)      -- protocol.py:975-982
+        let sc := reduceB a.szx st.szx (advance st cur)    -- protocol.py:1024-1036
         if !sent.more then
           if a.more || r.code == codeContinue
           then .done (.error .unexpectedBlock1)            -- "Server asked for more data at end of body"
@@ -227,9 +255,10 @@ def step (cfg : Cfg) : Phase → Resp → Phase
     | some b2 =>
       -- protocol.py:1207-1211 (a fix): RFC 7959 2.4, never larger blocks than requested
       if szxGrows cur b2 then .done (.error .unexpectedBlock2)
-      -- Message._append_response_block (message.py:476-500; the code comparison is a fix)
+      -- Message._append_response_block (message.py:480-510; the code comparison and the refusal
+      -- of an empty non-final block are fixes)
       else if r.code ≠ asm.code then .done (.error .unexpectedBlock2)   -- "Response code changed"
-      else if !b2.validFor r.payload.length then .done (.error .unexpectedBlock2)
+      else if !b2.okFor r.payload.length then .done (.error .unexpectedBlock2)
       else if b2.start ≠ asm.payload.length then .done (.error .notImplemented)
       else if r.etag ≠ asm.etag then .done (.error .resourceChanged)
       else
@@ -237,8 +266,9 @@ def step (cfg : Cfg) : Phase → Resp → Phase
         if !b2.more then .done (.ok { code := asm'.code, etag := asm'.etag, payload := asm'.payload })
         else enterB2 cfg template asm'
 
-/-- `_run` starts the Block1 loop with `size_exp = maximum_block_size_exp`, `block_cursor = 0` -/
-def start (cfg : Cfg) : Phase := enterB1 cfg { szx := cfg.szx0, cursor := 0 }
+/-- `_run` starts the Block1 loop with `size_exp = maximum_block_size_exp` (or the application's
+Block1 hint), `block_cursor = 0` -/
+def start (cfg : Cfg) : Phase := enterB1 cfg { szx := startSzx cfg, cursor := 0 }
 
 /-- the request currently on the wire -/
 def Phase.outstanding : Phase → Option Req
